@@ -4,9 +4,10 @@
    alignments: allocation count, free bytes, emptiness flag, free-region count, both statistics are
    the figures recomputed from the region list, the regions tile [0, size), free lists, both
    bitmaps and the running counters are exact, and Validate reports no inconsistency (with vam's
-   handler and granularity > 256 under the hypothesis that the handler's own page check passes —
-   the uint16 page counter wraps at 65536 one-byte allocations on one 64 KiB page, where Validate
-   would really fail; see DESIGN.md).
+   handler for every granularity 1 .. 64 KiB and allocation kinds of vam's enum: the page counters
+   are uint32 and a page of g bytes has at most g allocations counted on it, so no counter wraps;
+   with the former uint16 counters Validate really failed at 65536 one-byte allocations on one
+   64 KiB page, see DESIGN.md / known_findings).
    Linear half: the same for every reachable linear state. *)
 From Coq Require Import ZArith NArith List Lia.
 From Arsenal Require Import Util Bits Gran Tlsf TlsfGeom TlsfInv1 TlsfStep TlsfProps SizeClass TlsfInv2 TlsfStep2 TlsfProps2 GranInv GranTlsf.
@@ -43,7 +44,7 @@ Proof. exact tlsf_reach_validate. Qed.
 Print Assumptions C03_tlsf_validate.
 
 Theorem C03_tlsf_vam_validate : forall gr size ops,
-  cfg2_ok gr size -> 1 <= gr < 65536 -> Forall op_ok ops -> Forall op_kind_ok ops ->
+  cfg2_ok gr size -> 1 <= gr <= 65536 -> Forall op_ok ops -> Forall op_kind_ok ops ->
   validate (run (tlsf_init HVam gr size) ops) = Some true.
 Proof. exact tlsf_vam_validate. Qed.
 Print Assumptions C03_tlsf_vam_validate.
